@@ -193,6 +193,16 @@ def gen_flux2ab(src):
                 for s in stmts:
                     if isinstance(s, ast.For) and len(s.body) == 1 and isinstance(s.body[0], ast.AugAssign):
                         a = s.body[0]
+                        # every row: `for i in range(rows): abflux[i, :] op= ...`
+                        it, tg = s.iter, a.target
+                        if not (isinstance(it, ast.Call) and call_name(it.func) == 'range' and len(it.args) == 1
+                                and isinstance(it.args[0], ast.Name) and it.args[0].id == 'rows' and isinstance(s.target, ast.Name)):
+                            raise Unrecognised('row update loop does not run over range(rows)')
+                        if not (isinstance(tg, ast.Subscript) and isinstance(tg.value, ast.Name) and tg.value.id == 'abflux'
+                                and isinstance(tg.slice, ast.Tuple) and len(tg.slice.elts) == 2 and isinstance(tg.slice.elts[0], ast.Name)
+                                and tg.slice.elts[0].id == s.target.id and isinstance(tg.slice.elts[1], ast.Slice)
+                                and tg.slice.elts[1].lower is None and tg.slice.elts[1].upper is None and tg.slice.elts[1].step is None):
+                            raise Unrecognised('row update target is not abflux[i, :]')
                         if isinstance(a.value, ast.Name):
                             return type(a.op), a.value.id
                 raise Unrecognised('row update loop')
@@ -214,6 +224,11 @@ def gen_flux2ab(src):
                     ivar = a[0][1]
     if corr is None or mag_op is None or factor is None or ivar is None:
         raise Unrecognised('sdssflux2ab shape')
+    shape_ok = any(isinstance(st, ast.Assign) and isinstance(st.targets[0], ast.Tuple) and [getattr(e, 'id', None) for e in st.targets[0].elts] == ['rows', 'cols']
+                   and isinstance(st.value, ast.Attribute) and st.value.attr == 'shape' and isinstance(st.value.value, ast.Name) and st.value.value.id == 'flux'
+                   for st in fn.body)
+    if not shape_ok:
+        raise Unrecognised('sdssflux2ab: rows, cols = flux.shape')
     if len(corr) != 5:
         raise Unrecognised('correction vector length %d' % len(corr))
     # factor = B ** (E)   with constant base
@@ -330,14 +345,265 @@ def gen_filter_norm(src):
     return out
 
 
+# ----------------------------------------------------------------------------------------------------------------
+# masked pixels: pydl/pydlutils/image.py djs_maskinterp1 (the route filter_thru takes: xval None, const False) and the
+# call `djs_maskinterp(flux, mask, axis=0)` in filter_thru
+# ----------------------------------------------------------------------------------------------------------------
+
+def mask_pred(node, what):
+    """`mask <op> const` -> Gallina bool over the mask value m : Q"""
+    if isinstance(node, ast.Compare) and len(node.ops) == 1 and isinstance(node.left, ast.Name) and node.left.id == 'mask' \
+            and isinstance(node.comparators[0], ast.Constant):
+        c = lit(frac_of_const(node.comparators[0].value), 'Q')
+        op = type(node.ops[0])
+        table = {ast.Eq: 'Qeq_bool m %s', ast.NotEq: 'negb (Qeq_bool m %s)', ast.Gt: 'negb (Qle_bool m %s)',
+                 ast.GtE: 'Qle_bool %s m', ast.Lt: 'negb (Qle_bool %s m)', ast.LtE: 'Qle_bool m %s'}
+        if op not in table:
+            raise Unrecognised('djs_maskinterp1: comparison in %s' % what)
+        return table[op] % c
+    raise Unrecognised('djs_maskinterp1: %s is not a comparison of mask with a constant' % what)
+
+
+def nonzero0(v):
+    """X.nonzero()[0] -> X"""
+    if isinstance(v, ast.Subscript) and isinstance(v.slice, ast.Constant) and v.slice.value == 0 \
+            and isinstance(v.value, ast.Call) and isinstance(v.value.func, ast.Attribute) and v.value.func.attr == 'nonzero' \
+            and not v.value.args:
+        return v.value.func.value
+    return None
+
+
+def gen_maskinterp(image_src, spec2d_src):
+    tree = ast.parse(image_src)
+    fn = find_function(tree, 'djs_maskinterp1')
+    args = [a.arg for a in fn.args.args]
+    if args != ['yval', 'mask', 'xval', 'const']:
+        raise Unrecognised('djs_maskinterp1 arguments %s' % args)
+    good = bad = None
+    dispatch = []       # (condition text, code) in source order; code 0 = the input row, 1 = constant at the first good value
+    interp_seen = False
+    body = [st for st in fn.body if not (isinstance(st, ast.Expr) and isinstance(st.value, ast.Constant))]
+    for st in body:
+        if isinstance(st, ast.Assign) and len(st.targets) == 1 and isinstance(st.targets[0], ast.Name):
+            nm, v = st.targets[0].id, st.value
+            if nm == 'good':
+                good = mask_pred(v, 'good')
+            elif nm == 'ngood':
+                if not (isinstance(v, ast.Call) and isinstance(v.func, ast.Attribute) and v.func.attr == 'sum' and not v.args
+                        and isinstance(v.func.value, ast.Name) and v.func.value.id == 'good'):
+                    raise Unrecognised('djs_maskinterp1: ngood')
+            elif nm == 'igood':
+                b = nonzero0(v)
+                if not (isinstance(b, ast.Name) and b.id == 'good'):
+                    raise Unrecognised('djs_maskinterp1: igood')
+            elif nm == 'ibad':
+                b = nonzero0(v)
+                if b is None:
+                    raise Unrecognised('djs_maskinterp1: ibad')
+                bad = mask_pred(b, 'ibad')
+            elif nm == 'ynew':
+                if not (isinstance(v, ast.Call) and isinstance(v.func, ast.Attribute) and v.func.attr == 'astype'
+                        and isinstance(v.func.value, ast.Name) and v.func.value.id == 'yval'):
+                    raise Unrecognised('djs_maskinterp1: ynew')
+            elif nm == 'ny':
+                pass
+            else:
+                raise Unrecognised('djs_maskinterp1: assignment to %s' % nm)
+        elif isinstance(st, ast.If):
+            t = st.test
+            if isinstance(t, ast.Compare) and isinstance(t.left, ast.Name) and t.left.id == 'xval' and isinstance(t.ops[0], ast.Is):
+                # xval is None: ynew[ibad] = np.interp(ibad, igood, ynew[igood])
+                s0 = st.body[0]
+                ok = isinstance(s0, ast.Assign) and isinstance(s0.targets[0], ast.Subscript) \
+                    and isinstance(s0.targets[0].value, ast.Name) and s0.targets[0].value.id == 'ynew' \
+                    and isinstance(s0.targets[0].slice, ast.Name) and s0.targets[0].slice.id == 'ibad' \
+                    and isinstance(s0.value, ast.Call) and call_name(s0.value.func) == 'interp' and len(s0.value.args) == 3 \
+                    and not s0.value.keywords
+                if ok:
+                    a0, a1, a2 = s0.value.args
+                    ok = isinstance(a0, ast.Name) and a0.id == 'ibad' and isinstance(a1, ast.Name) and a1.id == 'igood' \
+                        and isinstance(a2, ast.Subscript) and isinstance(a2.value, ast.Name) and a2.value.id == 'ynew' \
+                        and isinstance(a2.slice, ast.Name) and a2.slice.id == 'igood'
+                if not ok:
+                    raise Unrecognised('djs_maskinterp1: interpolation statement')
+                for s in st.body[1:]:
+                    if not (isinstance(s, ast.If) and isinstance(s.test, ast.Name) and s.test.id == 'const'):
+                        raise Unrecognised('djs_maskinterp1: statement after the interpolation')
+                interp_seen = True
+                continue
+            if interp_seen:
+                raise Unrecognised('djs_maskinterp1: branch after the interpolation')
+            # early exits
+            if isinstance(t, ast.Call) and isinstance(t.func, ast.Attribute) and t.func.attr == 'all' and not t.args \
+                    and isinstance(t.func.value, ast.Name) and t.func.value.id == 'good':
+                cond = 'all_good'
+            elif isinstance(t, ast.Compare) and len(t.ops) == 1 and isinstance(t.left, ast.Name) and t.left.id == 'ngood' \
+                    and isinstance(t.ops[0], ast.Eq) and isinstance(t.comparators[0], ast.Constant) \
+                    and isinstance(t.comparators[0].value, int):
+                cond = 'Z.eqb ngood (%d)%%Z' % t.comparators[0].value
+            else:
+                raise Unrecognised('djs_maskinterp1: early-exit test')
+            if good is None or st.orelse or len(st.body) != 1 or not isinstance(st.body[0], ast.Return):
+                raise Unrecognised('djs_maskinterp1: early-exit body')
+            rv = st.body[0].value
+            if isinstance(rv, ast.Name) and rv.id == 'yval':
+                code = 0
+            elif isinstance(rv, ast.BinOp) and isinstance(rv.op, ast.Add) and isinstance(rv.left, ast.Call) \
+                    and call_name(rv.left.func) == 'zeros' and isinstance(rv.right, ast.Subscript) \
+                    and isinstance(rv.right.value, ast.Name) and rv.right.value.id == 'yval' \
+                    and isinstance(rv.right.slice, ast.Subscript) and isinstance(rv.right.slice.value, ast.Name) \
+                    and rv.right.slice.value.id == 'igood' and isinstance(rv.right.slice.slice, ast.Constant) \
+                    and rv.right.slice.slice.value == 0:
+                code = 1
+            else:
+                raise Unrecognised('djs_maskinterp1: early-exit value')
+            dispatch.append((cond, code))
+        elif isinstance(st, ast.Return):
+            if not (isinstance(st.value, ast.Name) and st.value.id == 'ynew' and interp_seen):
+                raise Unrecognised('djs_maskinterp1: final return')
+        else:
+            raise Unrecognised('djs_maskinterp1: statement %s' % type(st).__name__)
+    if good is None or bad is None or not interp_seen:
+        raise Unrecognised('djs_maskinterp1: good / ibad / interpolation not found')
+    # ---- djs_maskinterp, two dimensions, xval None, axis == 0: one djs_maskinterp1 call per row on yval[i, :], mask[i, :]
+    fm = find_function(tree, 'djs_maskinterp')
+    rowwise = False
+    for n in ast.walk(fm):
+        if isinstance(n, ast.If) and isinstance(n.test, ast.Compare) and isinstance(n.test.left, ast.Name) and n.test.left.id == 'axis' \
+                and isinstance(n.test.ops[0], ast.Eq) and isinstance(n.test.comparators[0], ast.Constant) and n.test.comparators[0].value == 0:
+            loop = n.body[0] if n.body else None
+            if isinstance(loop, ast.For) and len(loop.body) == 1 and isinstance(loop.body[0], ast.Assign):
+                a = loop.body[0]
+                call = a.value
+                if isinstance(call, ast.Call) and call_name(call.func) == 'djs_maskinterp1' and len(call.args) == 2 \
+                        and not any(k.arg == 'xval' for k in call.keywords):
+                    def row(e, nm):
+                        return isinstance(e, ast.Subscript) and isinstance(e.value, ast.Name) and e.value.id == nm \
+                            and isinstance(e.slice, ast.Tuple) and len(e.slice.elts) == 2 \
+                            and isinstance(e.slice.elts[0], ast.Name) and e.slice.elts[0].id == loop.target.id \
+                            and isinstance(e.slice.elts[1], ast.Slice) and e.slice.elts[1].lower is None and e.slice.elts[1].upper is None
+                    it = loop.iter
+                    shape0 = isinstance(it, ast.Call) and call_name(it.func) == 'range' and len(it.args) == 1 \
+                        and isinstance(it.args[0], ast.Subscript) and isinstance(it.args[0].slice, ast.Constant) and it.args[0].slice.value == 0
+                    if row(a.targets[0], 'ynew') and row(call.args[0], 'yval') and row(call.args[1], 'mask') and shape0:
+                        rowwise = True
+                        break
+    if not rowwise:
+        raise Unrecognised('djs_maskinterp: the axis == 0 loop is not one djs_maskinterp1 call per row')
+    # ---- filter_thru: flux_interp = djs_maskinterp(flux, mask, axis=0) under `if mask is not None`
+    ft = find_function(ast.parse(spec2d_src), 'filter_thru')
+    call_ok = False
+    for n in ast.walk(ft):
+        if isinstance(n, ast.Assign) and isinstance(n.targets[0], ast.Name) and n.targets[0].id == 'flux_interp':
+            c = n.value
+            if isinstance(c, ast.Call) and call_name(c.func) == 'djs_maskinterp' and len(c.args) == 2 \
+                    and all(isinstance(a, ast.Name) for a in c.args) and [a.id for a in c.args] == ['flux', 'mask'] \
+                    and len(c.keywords) == 1 and c.keywords[0].arg == 'axis' and isinstance(c.keywords[0].value, ast.Constant) \
+                    and c.keywords[0].value.value == 0:
+                call_ok = True
+    if not call_ok:
+        raise Unrecognised('filter_thru: flux_interp is not djs_maskinterp(flux, mask, axis=0)')
+    d = ''
+    for cond, code in dispatch:
+        d += 'if %s then %d else ' % (cond, code)
+    d += '2'
+    return ['(* masked pixels, pydl/pydlutils/image.py djs_maskinterp1 line %d (xval None, const False), called per row by' % fn.lineno,
+            '   djs_maskinterp(flux, mask, axis=0) in filter_thru.  Mask values are rationals (integers, bools, floats alike). *)' ,
+            'Open Scope Q_scope.',
+            'Definition maskinterp_good (m : Q) : bool := %s.' % good,
+            'Definition maskinterp_bad (m : Q) : bool := %s.' % bad,
+            '(* early exits in source order: 0 = the input row is returned, 1 = constant at the first good value, 2 = np.interp *)',
+            'Definition maskinterp_dispatch (all_good : bool) (ngood : Z) : Z := (%s)%%Z.' % d,
+            'Close Scope Q_scope.', '']
+
+
+# ----------------------------------------------------------------------------------------------------------------
+# filter response curves: the files filter_thru reads and the two columns it hands to np.interp
+# ----------------------------------------------------------------------------------------------------------------
+
+def gen_filter_curves(repo, spec2d_src):
+    import fractions
+    ft = find_function(ast.parse(spec2d_src), 'filter_thru')
+    # default filter_prefix
+    names = [a.arg for a in ft.args.args]
+    defaults = dict(zip(names[len(names) - len(ft.args.defaults):], ft.args.defaults))
+    if 'filter_prefix' not in defaults or not isinstance(defaults['filter_prefix'], ast.Constant):
+        raise Unrecognised('filter_thru: filter_prefix default')
+    prefix = defaults['filter_prefix'].value
+    fmt = bands = None
+    colnames = None
+    xcol = ycol = xarg = None
+    for n in ast.walk(ft):
+        if isinstance(n, ast.ListComp) and isinstance(n.elt, ast.Call):
+            g = n.generators[0]
+            if isinstance(g.iter, ast.Constant) and isinstance(g.iter.value, str):
+                for c in ast.walk(n.elt):
+                    if isinstance(c, ast.Call) and isinstance(c.func, ast.Attribute) and c.func.attr == 'format' \
+                            and isinstance(c.func.value, ast.Constant) and isinstance(c.func.value.value, str) \
+                            and len(c.args) == 2 and isinstance(c.args[0], ast.Name) and c.args[0].id == 'filter_prefix' \
+                            and isinstance(c.args[1], ast.Name) and c.args[1].id == g.target.id:
+                        fmt, bands = c.func.value.value, g.iter.value
+        if isinstance(n, ast.Call) and isinstance(n.func, ast.Attribute) and n.func.attr == 'read':
+            for k in n.keywords:
+                if k.arg == 'names' and isinstance(k.value, ast.Tuple) and all(isinstance(e, ast.Constant) for e in k.value.elts):
+                    colnames = [e.value for e in k.value.elts]
+        if isinstance(n, ast.Call) and call_name(n.func) == 'interp' and len(n.args) == 3:
+            def col(e):
+                # filter_data['lam'].data
+                if isinstance(e, ast.Attribute) and e.attr == 'data':
+                    e = e.value
+                if isinstance(e, ast.Subscript) and isinstance(e.value, ast.Name) and e.value.id == 'filter_data' \
+                        and isinstance(e.slice, ast.Constant) and isinstance(e.slice.value, str):
+                    return e.slice.value
+                return None
+            xcol, ycol = col(n.args[1]), col(n.args[2])
+            xn = {m.id for m in ast.walk(n.args[0]) if isinstance(m, ast.Name)}
+            xarg = sorted(xn)
+    if fmt is None or colnames is None or xcol is None or ycol is None:
+        raise Unrecognised('filter_thru: filter files / columns not found')
+    if xarg != ['newwaveimg']:
+        raise Unrecognised('filter_thru: the response is not interpolated at newwaveimg (%s)' % xarg)
+    if xcol not in colnames or ycol not in colnames:
+        raise Unrecognised('filter_thru: column names')
+    ix, iy = colnames.index(xcol), colnames.index(ycol)
+    # the guard on filter_prefix pins the prefix to the default
+    out = ['(* filter response curves: columns %r, %r of %s for bands %r, as np.interp receives them *)' % (xcol, ycol, fmt.format(prefix, '*'), bands),
+           'Open Scope Q_scope.']
+    cn = []
+    for b in bands:
+        rel = os.path.join('pydl/pydlutils', fmt.format(prefix, b))
+        rows = []
+        for line in open(os.path.join(repo, rel)):
+            t = line.strip()
+            if not t or t.startswith('#'):
+                continue
+            f = t.split()
+            if len(f) != len(colnames):
+                raise Unrecognised('%s: row with %d columns' % (rel, len(f)))
+            rows.append((fractions.Fraction(f[ix]), fractions.Fraction(f[iy])))
+        if len(rows) < 2 or any(a[0] >= b_[0] for a, b_ in zip(rows, rows[1:])):
+            raise Unrecognised('%s: abscissae not strictly increasing' % rel)
+        nm = 'filter_curve_%s' % b
+        cn.append(nm)
+        out.append('Definition %s : list (Q * Q) :=\n  [%s].' % (nm, ';\n   '.join(
+            '; '.join('(%s, %s)' % (lit(x, 'Q'), lit(y, 'Q')) for x, y in rows[k:k + 6]) for k in range(0, len(rows), 6))))
+    out.append('Definition filter_curves : list (list (Q * Q)) := [%s].' % '; '.join(cn))
+    out.append('Close Scope Q_scope.')
+    out.append('')
+    return out
+
+
 def generate(repo):
     info = {'recognised': True, 'detail': []}
-    out = ['(* GENERATED by translate/c19.py from pydl/goddard/astro.py, pydl/photoop/sdssio.py, pydl/pydlspec2d/spec2d.py -- do not edit *)',
-           'From Coq Require Import Reals QArith Qabs List Bool.', 'Import ListNotations.', '']
+    out = ['(* GENERATED by translate/c19.py from pydl/goddard/astro.py, pydl/photoop/sdssio.py, pydl/pydlspec2d/spec2d.py, pydl/pydlutils/image.py, pydl/pydlutils/data/filters -- do not edit *)',
+           'From Coq Require Import Reals QArith Qabs List Bool ZArith.', 'Import ListNotations.', '']
     try:
         out += gen_airvac(open(os.path.join(repo, 'pydl/goddard/astro.py')).read())
         out += gen_flux2ab(open(os.path.join(repo, 'pydl/photoop/sdssio.py')).read())
-        out += gen_filter_norm(open(os.path.join(repo, 'pydl/pydlspec2d/spec2d.py')).read())
+        spec2d_src = open(os.path.join(repo, 'pydl/pydlspec2d/spec2d.py')).read()
+        out += gen_filter_norm(spec2d_src)
+        out += gen_maskinterp(open(os.path.join(repo, 'pydl/pydlutils/image.py')).read(), spec2d_src)
+        out += gen_filter_curves(repo, spec2d_src)
     except (Unrecognised, SyntaxError, OSError) as e:
         info['recognised'] = False
         info['detail'].append('%s: %s' % (type(e).__name__, e))
